@@ -29,6 +29,7 @@ open Ivg Ivg.Num Ivg.Gen Ivg.Gen.Code
 abbrev decColorResOf (b : Bytes) (r : Option (Color × Bytes)) : ivg_Color × Int :=
   decResOf colorOf ivg_Color.zero b r
 
+tolerant
 /-- `(buffer).decodeColor1` (decode/buffer.go) = `Dec.decodeColor1` -/
 theorem buffer_decodeColor1_code_tie (b : Bytes) :
     decode_buffer_decodeColor1 b = decColorResOf b (Dec.decodeColor1 b) := by
@@ -42,6 +43,7 @@ theorem buffer_decodeColor1_code_tie (b : Bytes) :
     · omega
     · congr 1; omega
 
+tolerant
 /-- `(buffer).decodeColor2` (decode/buffer.go) = `Dec.decodeColor2` -/
 theorem decodeColor2_code_tie (b : Bytes) :
     decode_buffer_decodeColor2 b = decColorResOf b (Dec.decodeColor2 b) := by
@@ -56,6 +58,7 @@ theorem decodeColor2_code_tie (b : Bytes) :
     · omega
     · congr 1; omega
 
+tolerant
 /-- `(buffer).decodeColor3Direct` (decode/buffer.go) = `Dec.decodeColor3Direct` -/
 theorem decodeColor3Direct_code_tie (b : Bytes) :
     decode_buffer_decodeColor3Direct b = decColorResOf b (Dec.decodeColor3Direct b) := by
@@ -71,6 +74,7 @@ theorem decodeColor3Direct_code_tie (b : Bytes) :
     · omega
     · congr 1; omega
 
+tolerant
 /-- `(buffer).decodeColor4` (decode/buffer.go) = `Dec.decodeColor4` -/
 theorem decodeColor4_code_tie (b : Bytes) :
     decode_buffer_decodeColor4 b = decColorResOf b (Dec.decodeColor4 b) := by
@@ -87,6 +91,7 @@ theorem decodeColor4_code_tie (b : Bytes) :
     · omega
     · congr 1; omega
 
+tolerant
 /-- `(buffer).decodeColor3Indirect` (decode/buffer.go) = `Dec.decodeColor3Indirect` -/
 theorem decodeColor3Indirect_code_tie (b : Bytes) :
     decode_buffer_decodeColor3Indirect b = decColorResOf b (Dec.decodeColor3Indirect b) := by
@@ -104,6 +109,7 @@ theorem decodeColor3Indirect_code_tie (b : Bytes) :
 
 /-! ## the converse reading: the model result is determined by the generated function -/
 
+tolerant
 /-- the model's `decodeColor1` leaves `b[1:]` -/
 theorem decAux_decodeColor1_rest {b : Bytes} {c : Color} {rest : Bytes} (h : Dec.decodeColor1 b = some (c, rest)) :
     ∃ n, 0 < n ∧ n ≤ b.length ∧ rest = b.drop n := by
@@ -113,11 +119,13 @@ theorem decAux_decodeColor1_rest {b : Bytes} {c : Color} {rest : Bytes} (h : Dec
     simp only [Dec.decodeColor1, Option.some.injEq, Prod.mk.injEq] at h
     exact ⟨1, by omega, by simp, by simp [h.2]⟩
 
+tolerant
 /-- the converse reading of `buffer_decodeColor1_code_tie`: (`n == 0` ↦ `none`, otherwise the colour and `b[n:]`) -/
 theorem buffer_decodeColor1_model_eq (b : Bytes) :
     (Dec.decodeColor1 b).map (fun p => (colorOf p.1, p.2)) = decResTo b (decode_buffer_decodeColor1 b) := by
   rw [buffer_decodeColor1_code_tie, decColorResOf, decResTo_decResOf _ _ _ _ (fun _ _ h => decAux_decodeColor1_rest h)]
 
+tolerant
 /-- the model's `decodeColor2` leaves `b[2:]` -/
 theorem decAux_decodeColor2_rest {b : Bytes} {c : Color} {rest : Bytes} (h : Dec.decodeColor2 b = some (c, rest)) :
     ∃ n, 0 < n ∧ n ≤ b.length ∧ rest = b.drop n := by
@@ -128,11 +136,13 @@ theorem decAux_decodeColor2_rest {b : Bytes} {c : Color} {rest : Bytes} (h : Dec
     simp only [Dec.decodeColor2, Option.some.injEq, Prod.mk.injEq] at h
     exact ⟨2, by omega, by simp, by simp [h.2]⟩
 
+tolerant
 /-- the converse reading of `decodeColor2_code_tie`: (`n == 0` ↦ `none`, otherwise the colour and `b[n:]`) -/
 theorem decodeColor2_model_eq (b : Bytes) :
     (Dec.decodeColor2 b).map (fun p => (colorOf p.1, p.2)) = decResTo b (decode_buffer_decodeColor2 b) := by
   rw [decodeColor2_code_tie, decColorResOf, decResTo_decResOf _ _ _ _ (fun _ _ h => decAux_decodeColor2_rest h)]
 
+tolerant
 /-- the model's `decodeColor3Direct` leaves `b[3:]` -/
 theorem decAux_decodeColor3Direct_rest {b : Bytes} {c : Color} {rest : Bytes} (h : Dec.decodeColor3Direct b = some (c, rest)) :
     ∃ n, 0 < n ∧ n ≤ b.length ∧ rest = b.drop n := by
@@ -144,11 +154,13 @@ theorem decAux_decodeColor3Direct_rest {b : Bytes} {c : Color} {rest : Bytes} (h
     simp only [Dec.decodeColor3Direct, Option.some.injEq, Prod.mk.injEq] at h
     exact ⟨3, by omega, by simp, by simp [h.2]⟩
 
+tolerant
 /-- the converse reading of `decodeColor3Direct_code_tie`: (`n == 0` ↦ `none`, otherwise the colour and `b[n:]`) -/
 theorem decodeColor3Direct_model_eq (b : Bytes) :
     (Dec.decodeColor3Direct b).map (fun p => (colorOf p.1, p.2)) = decResTo b (decode_buffer_decodeColor3Direct b) := by
   rw [decodeColor3Direct_code_tie, decColorResOf, decResTo_decResOf _ _ _ _ (fun _ _ h => decAux_decodeColor3Direct_rest h)]
 
+tolerant
 /-- the model's `decodeColor4` leaves `b[4:]` -/
 theorem decAux_decodeColor4_rest {b : Bytes} {c : Color} {rest : Bytes} (h : Dec.decodeColor4 b = some (c, rest)) :
     ∃ n, 0 < n ∧ n ≤ b.length ∧ rest = b.drop n := by
@@ -161,11 +173,13 @@ theorem decAux_decodeColor4_rest {b : Bytes} {c : Color} {rest : Bytes} (h : Dec
     simp only [Dec.decodeColor4, Option.some.injEq, Prod.mk.injEq] at h
     exact ⟨4, by omega, by simp, by simp [h.2]⟩
 
+tolerant
 /-- the converse reading of `decodeColor4_code_tie`: (`n == 0` ↦ `none`, otherwise the colour and `b[n:]`) -/
 theorem decodeColor4_model_eq (b : Bytes) :
     (Dec.decodeColor4 b).map (fun p => (colorOf p.1, p.2)) = decResTo b (decode_buffer_decodeColor4 b) := by
   rw [decodeColor4_code_tie, decColorResOf, decResTo_decResOf _ _ _ _ (fun _ _ h => decAux_decodeColor4_rest h)]
 
+tolerant
 /-- the model's `decodeColor3Indirect` leaves `b[3:]` -/
 theorem decAux_decodeColor3Indirect_rest {b : Bytes} {c : Color} {rest : Bytes} (h : Dec.decodeColor3Indirect b = some (c, rest)) :
     ∃ n, 0 < n ∧ n ≤ b.length ∧ rest = b.drop n := by
@@ -177,6 +191,7 @@ theorem decAux_decodeColor3Indirect_rest {b : Bytes} {c : Color} {rest : Bytes} 
     simp only [Dec.decodeColor3Indirect, Option.some.injEq, Prod.mk.injEq] at h
     exact ⟨3, by omega, by simp, by simp [h.2]⟩
 
+tolerant
 /-- the converse reading of `decodeColor3Indirect_code_tie`: (`n == 0` ↦ `none`, otherwise the colour and `b[n:]`) -/
 theorem decodeColor3Indirect_model_eq (b : Bytes) :
     (Dec.decodeColor3Indirect b).map (fun p => (colorOf p.1, p.2)) = decResTo b (decode_buffer_decodeColor3Indirect b) := by
